@@ -3,7 +3,9 @@
 #
 # Case formats (one line each, fields separated by one space):
 #   c16.line      <hex comment line> <spec tree | -> <printer c|p>
+#   c16.doc       <hex line>                     (the example lines of docs/manual/annotate.md)
 #   c16.fragment  <hex line>,<hex line>,...
+#   c16.file      <hex line>,<hex line>,...      (embedded as "--<line>" in a Lua file that goes through the real parser)
 #   c16.print     <hex type text>
 #   c16.total     <hex line>,<hex line>,...
 # A comment line is the CommentLine.Str the Lua lexer hands to ParseCommentFragment: the text after the leading
@@ -209,7 +211,7 @@ def clean(b):
     return b.replace(b"\n", b" ")
 
 
-SIZES = {"quick": 1, "thorough": 50, "search": 1}
+SIZES = {"quick": 6, "thorough": 60, "search": 2}
 
 
 # ----------------------------------------------------------------------------- leg c16.line
@@ -281,6 +283,34 @@ def gen_fragment(rng, tier):
     return out
 
 
+# ----------------------------------------------------------------------------- leg c16.file
+def gen_file(rng, tier):
+    """the fragments of c16.fragment embedded in a Lua file ("--" + line): the glue from file text to CommentLine.Str.
+    Lines that would open a long comment ("--[[", "--[=[") or contain a CR are left out (they are not one short comment)."""
+    out = []
+    for c in gen_fragment(rng, tier)[: 400 * SIZES[tier]]:
+        lines = [bytes.fromhex(h) if h != "-" else b"" for h in c.split(",")]
+        lines = [x for x in lines if not x.startswith(b"[") and b"\r" not in x]
+        if lines:
+            out.append(",".join(hexs(x) for x in lines))
+    return out
+
+
+# ----------------------------------------------------------------------------- leg c16.doc
+def gen_doc(rng, tier):
+    """every `---@` example line of docs/manual/annotate.md (read from the repository under test) must be accepted.
+    `---@filed ...` in section 3.6 is a typo of the manual (not an annotation keyword): left out, counted below."""
+    out = []
+    path = os.path.join(vlib.REPO, "docs", "manual", "annotate.md")
+    for l in open(path, encoding="utf8", errors="replace"):
+        t = l.strip()
+        if t.startswith("---@") and not t.startswith("---@filed "):
+            out.append(hexs(t[2:].encode("utf8")))
+    if len(out) < 80:
+        raise RuntimeError("docs/manual/annotate.md: only %d example lines found" % len(out))
+    return out
+
+
 # ----------------------------------------------------------------------------- leg c16.print
 def gen_print(rng, tier):
     k = SIZES[tier]
@@ -321,7 +351,10 @@ def nontriv_line(c):
 LEGS = [
     Leg("c16.line", gen_line, shrink=shrink_line, nontrivial=nontriv_line,
         describe=lambda c: (bytes.fromhex(c.split(" ")[0].split(",")[0]).decode("utf8", "replace") if c.split(" ")[0] != "-" else "")[:160]),
+    Leg("c16.doc", gen_doc, nontrivial=lambda c: True,
+        describe=lambda c: bytes.fromhex(c).decode("utf8", "replace")[:160]),
     Leg("c16.fragment", gen_fragment, shrink=shrink_line, nontrivial=lambda c: "," in c),
+    Leg("c16.file", gen_file, shrink=shrink_line, nontrivial=lambda c: "," in c),
     Leg("c16.print", gen_print, shrink=shrink_line, nontrivial=lambda c: len(c) > 12),
     Leg("c16.total", gen_total, shrink=shrink_line, nontrivial=lambda c: len(c) > 8),
 ]
